@@ -1667,6 +1667,12 @@ impl Archive {
 
         self.check_stored_extent(&file_info, name)?;
 
+        // A zero-length file has no stored units: no sector offset table, no data and no
+        // checksum to look for (its position may even be the end of the archive)
+        if actual_file_size == 0 {
+            return Ok(Vec::new());
+        }
+
         // Read the file data
         self.reader.seek(SeekFrom::Start(file_info.file_pos))?;
 
